@@ -370,6 +370,8 @@ impl RocksDBStateMachine {
     ) -> usize {
         let start = std::time::Instant::now();
         let now = SystemTime::now();
+        #[cfg(feature = "__verif")]
+        let now = { let _ = now; d_engine_core::verif_hooks::system_time_now() };
         let mut deleted_count = 0;
 
         // Fast path: skip if TTL never used (lazy activation)
@@ -670,6 +672,8 @@ impl RocksDBStateMachine {
             }
             entries.push((Bytes::copy_from_slice(&k), Bytes::copy_from_slice(&v)));
         }
+        #[cfg(feature = "__verif")]
+        d_engine_core::verif_hooks::yield_point("sm.scan.before_revision");
 
         let revision = self.last_applied_index.load(Ordering::SeqCst);
         Ok(ScanResult { entries, revision })
@@ -886,6 +890,8 @@ impl StateMachine for RocksDBStateMachine {
         }
 
         db.write_wbwi(&batch).map_err(|e| StorageError::DbError(e.to_string()))?;
+        #[cfg(feature = "__verif")]
+        d_engine_core::verif_hooks::crash_point("sm.apply.after_db_write");
 
         if let Some(highest) = highest_index_entry {
             self.update_last_applied(highest);
@@ -1108,6 +1114,8 @@ impl StateMachine for RocksDBStateMachine {
         }
 
         let now = SystemTime::now();
+        #[cfg(feature = "__verif")]
+        let now = { let _ = now; d_engine_core::verif_hooks::system_time_now() };
 
         // Fast path: sample first 10 entries — if none expired, skip full scan (~30ns)
         if !lease.may_have_expired_keys(now) {
